@@ -89,6 +89,31 @@ func treeSignature(ps string) (string, map[string]string) {
 		}
 		return nil
 	})
+	// the final state lists the forks of every node in fork-index order: the
+	// assignment of indices to elements/keys must not depend on map iteration
+	if b, err := os.ReadFile(filepath.Join(ps, "_finalstate")); err == nil {
+		var nodes []struct {
+			Fqname string `json:"fqname"`
+			Forks  []struct {
+				Index    int `json:"index"`
+				Metadata struct {
+					Path string `json:"path"`
+				} `json:"metadata"`
+			} `json:"forks"`
+		}
+		if json.Unmarshal(b, &nodes) == nil {
+			var lines []string
+			for _, n := range nodes {
+				l := n.Fqname + ":"
+				for _, f := range n.Forks {
+					l += fmt.Sprintf(" %d=%s", f.Index, filepath.Base(f.Metadata.Path))
+				}
+				lines = append(lines, l)
+			}
+			sort.Strings(lines)
+			files["_finalstate(fork order)"] = strings.Join(lines, "\n")
+		}
+	}
 	sort.Strings(names)
 	// chunk directories appear twice (symlink + uniquified target): dedupe
 	var dd []string
@@ -109,6 +134,11 @@ func c10Case(c *Ctx) {
 		gcfg.Files, gcfg.Retain, gcfg.RetainDup = true, true, true
 	}
 	prog := Generate(c.Plan, gcfg)
+	forkTemplate := c.Plan.Draw(5) == 0
+	if forkTemplate {
+		prog = templateForkOrderProg(c.Plan)
+		c.Res.Probes["fork-order-template"]++
+	}
 	src := prog.Source()
 	c.Res.Shape = progShape(prog)
 	c.Res.Class = "checked"
@@ -165,6 +195,10 @@ func c10Case(c *Ctx) {
 	// ---- system tier ----
 	if len(c.Res.Violations) == 0 {
 		fcfg := &FCfg{MaxLen: 1 + c.Plan.Draw(3), MaxChunks: c.Plan.Draw(3), Salt: "c10"}
+		if forkTemplate {
+			fcfg.MaxLen = 3 + c.Plan.Draw(6)
+			fcfg.Salt = fmt.Sprintf("c10-%d", c.Plan.Draw(1000))
+		}
 		flags := append(baseFlags(c.Plan), "--vdrmode=disable")
 		var refTree string
 		var refFiles map[string]string
@@ -245,6 +279,67 @@ func diffLines(a, b string) string {
 		only = only[:12]
 	}
 	return strings.Join(only, " ")
+}
+
+// templateForkOrderProg builds programs whose map calls get their forks from
+// collections that only exist at run time, reached in every way the resolver
+// distinguishes: a stage's typed-map or array output directly, a field projected
+// through a typed map (or array) of structs, a collection passed through a
+// sub-pipeline, and a literal map.  The order of the forks of every such call is
+// compared across map iteration orders (C10).
+func templateForkOrderProg(plan *Tape) *Prog {
+	p := &Prog{}
+	intT, strT := Ty{Base: "int"}, Ty{Base: "string"}
+	item := &StructDef{Name: "ITEM", Fields: []Field{{"value", intT}, {"name", strT}}}
+	p.Structs = []*StructDef{item}
+	itemT := Ty{Base: "ITEM"}
+	ref := func(call string, path ...string) *Expr { return &Expr{Kind: ERef, Call: call, Path: path} }
+	self := func(path ...string) *Expr { return &Expr{Kind: ERef, Self: true, Path: path} }
+	mapOf := func(t Ty) Ty { return Ty{Base: t.Base, Dims: "m" + t.Dims} }
+	mk := &StageDef{Name: "MAKE", SrcKind: "comp", Ins: []Field{{"n", intT}},
+		Outs: []Field{{"result", mapOf(itemT)}, {"list", itemT.ArrayOf()}, {"nums", mapOf(intT)}}}
+	use := &StageDef{Name: "USE", SrcKind: "comp", Ins: []Field{{"x", intT}, {"tag", strT}}, Outs: []Field{{"y", intT}}}
+	if plan.Draw(3) == 0 {
+		use.Split = true
+		use.ChunkIns = []Field{{"c0", intT}}
+		use.ChunkOuts = []Field{{"part", intT}}
+	}
+	p.Stages = []*StageDef{mk, use}
+	inner := &PipelineDef{Name: "INNER", Ins: []Field{{"vals", mapOf(intT)}}, Outs: []Field{{"ys", mapOf(intT)}}}
+	inner.Calls = []*CallDef{{Callee: "USE", Id: "USE", Mapped: true,
+		Binds: []Bind{{"x", self("vals"), true}, {"tag", &Expr{Kind: ELit, Val: "inner", T: strT}, false}}}}
+	inner.Ret = []Bind{{"ys", ref("USE", "y"), false}}
+	top := &PipelineDef{Name: "TOPF", Ins: []Field{{"n", intT}}}
+	top.Calls = append(top.Calls, &CallDef{Callee: "MAKE", Id: "MAKE", Binds: []Bind{{"n", self("n"), false}}})
+	lit := func(tag string) *Expr { return &Expr{Kind: ELit, Val: tag, T: strT} }
+	type variant struct {
+		id  string
+		src *Expr
+	}
+	vs := []variant{
+		{"USE_FIELD", ref("MAKE", "result", "value")},
+		{"USE_NUMS", ref("MAKE", "nums")},
+		{"USE_LISTF", ref("MAKE", "list", "value")},
+	}
+	n := 0
+	for _, v := range vs {
+		if plan.Draw(3) > 0 || n == 0 {
+			n++
+			top.Calls = append(top.Calls, &CallDef{Callee: "USE", Id: v.id, Mapped: true,
+				Binds: []Bind{{"x", v.src, true}, {"tag", lit(v.id), false}}})
+			top.Outs = append(top.Outs, Field{"o" + fmt.Sprint(n), Ty{Base: "int", Dims: map[bool]string{true: "a", false: "m"}[v.id == "USE_LISTF"]}})
+			top.Ret = append(top.Ret, Bind{"o" + fmt.Sprint(n), ref(v.id, "y"), false})
+		}
+	}
+	if plan.Draw(2) == 0 {
+		p.Pipelines = append(p.Pipelines, inner)
+		top.Calls = append(top.Calls, &CallDef{Callee: "INNER", Id: "INNER", Binds: []Bind{{"vals", ref("MAKE", "result", "value"), false}}})
+		top.Outs = append(top.Outs, Field{"inner", mapOf(intT)})
+		top.Ret = append(top.Ret, Bind{"inner", ref("INNER", "ys"), false})
+	}
+	p.Pipelines = append(p.Pipelines, top)
+	p.Top = &CallDef{Callee: "TOPF", Id: "TOPF", Binds: []Bind{{"n", &Expr{Kind: ELit, Val: int64(2 + plan.Draw(7)), T: intT}, false}}}
+	return p
 }
 
 func init() {
